@@ -18,7 +18,9 @@ RULE = ("the real SyncGroup.start()/run() on the virtual loop over random "
         "read-write) with recording devices (update() notes the input it "
         "sees and drives a fresh unique output; a second device on some "
         "terminals drives two bit outputs with truthy / falsy values of any "
-        "kind and reads a bit input); the bus model fills the "
+        "kind and reads a bit input; a third kind of device gets its "
+        "output commanded from outside update() while the group sleeps "
+        "between two cycles); the bus model fills the "
         "input RAM with a cycle-dependent pattern before every cyclic frame "
         "and, per datagram and cycle, returns a correct or a wrong working "
         "counter; 8-30 cycles; some frames are lost (time-out path). History "
@@ -61,6 +63,21 @@ class BitDevice(Device):
         self.b0 = v0
         self.b1 = v1
         self.sent.append((v0, v1))
+
+    def program(self):
+        pass
+
+
+class CmdDevice(Device):
+    """an output that is not driven from update() but commanded from
+    outside (another task, a GUI) between two cycles"""
+    out = TerminalVar()
+
+    def __init__(self, t):
+        self.out = PacketVar(t, SyncManager.OUT, 3, "B")
+
+    def update(self):
+        pass
 
     def program(self):
         pass
@@ -138,7 +155,7 @@ def run_case(case):
             rdgs = frames.parse(resp)[2]
             lost = case["lost"][k % len(case["lost"])]
             hists[-1]["cyc"].append(dict(
-                k=k, sent=data, resp=resp, lost=lost,
+                k=k, sent=data, resp=resp, lost=lost, t=loop.time(),
                 true_wkc=[true_wkc.get(i + 1) for i in range(len(dgs) - 1)],
                 sent_wkc=[g.wkc for g in dgs[1:]],
                 resp_wkc=[g.wkc for g in rdgs[1:]],
@@ -146,12 +163,29 @@ def run_case(case):
                         for s, d in zip(sims, case["terms"])]))
             return [] if lost else [(0.0002, resp)]
         bus.attach(ec, loop, b, policy)
-        sg = SyncGroup(ec, devs + [bd for _, bd in bitdevs])
+        cmddevs = [(ti, CmdDevice(t))
+                   for ti, (t, d) in enumerate(zip(ts, case["terms"]))
+                   if d["rw"] and d["osz"] >= 4][:1]
+        sg = SyncGroup(ec, devs + [bd for _, bd in bitdevs]
+                       + [cd for _, cd in cmddevs])
         orig = sg.update_devices
+
+        def command(ti, cd, value):
+            if sg.task is None or sg.task.done():
+                return
+            cd.out = value
+            hists[-1].setdefault("commands", []).append(
+                dict(t=loop.time(), term=ti, value=value))
 
         def upd(data):
             before = sg.wkc_errors
             r = orig(data)
+            n_ = len(hists[-1]["updates"])
+            if cmddevs and n_ % 3 == 1:
+                # while the group sleeps until its next cycle
+                ti_, cd_ = cmddevs[0]
+                loop.call_later(0.004, command, ti_, cd_,
+                                (n_ * 7 + 11) & 0xff or 5)
             hists[-1]["updates"].append(dict(
                 data=bytes(data), errors=sg.wkc_errors - before,
                 seen=[d.seen[-1] for d in devs],
@@ -315,6 +349,23 @@ def check_run(case, hist, res, seg):
                     f"to {vals!r}: the next frame carries {byte:#010b} in "
                     f"that byte, not {want:#010b}", case=case)
                 return False
+    # outputs commanded from outside update(), while the group sleeps
+    # between two cycles: the next frame sent carries them
+    for cmd in hist.get("commands", []):
+        later = [c for c in hist["cyc"] if c["t"] > cmd["t"]]
+        if not later:
+            continue
+        f = later[0]
+        st = assign[ts[cmd["term"]]][SyncManager.OUT]
+        res.count("commanded_outputs_checked")
+        if f["sent"][st + 3] != cmd["value"]:
+            res.violation(
+                "unexplained:output-data",
+                f"{ts[cmd['term']].name}{tag}: an output commanded between "
+                f"two cycles ({cmd['value']:#x} at t={cmd['t']:.4f}) is not "
+                f"in the next frame sent (t={f['t']:.4f} carries "
+                f"{f['sent'][st + 3]:#x})", case=case)
+            return False
     if len(res.samples) < 2:
         res.sample(dict(terms=case["terms"], cycles=len(hist["updates"]),
                         counters=[c for _, c in counters],
